@@ -380,22 +380,22 @@ Theorem prefix_walk_refuted :
              calls_of evs = [(0, 5)]) /\
   (* and the teardown walk leaked the nodes behind the first empty child *)
   (exists t evs, set_all empty [(16, 1); (17, 2); (300, 3)] = Some t /\ reach t /\
-             fini true (fun _ => 0) t = Some evs /\ frees_of evs = [] /\
-             exists id sz, In (Heap id, sz) (nodes (root t))).
+             fini true (fun _ => 0) t = Some evs /\
+             exists id sz, In (Heap id, sz) (nodes (root t)) /\ ~ In (Heap id) (frees_of evs)).
 Proof.
   split; [|split; [|split]].
   - eexists. split; [vm_compute; reflexivity|]. split; [|split; vm_compute; reflexivity].
-    eapply set_all_some_reach; [apply reach_empty|vm_compute; reflexivity].
+    apply (set_all_some_reach [(16, 777)] empty _ reach_empty). vm_compute. reflexivity.
   - eexists. split; [vm_compute; reflexivity|]. split; [|vm_compute; reflexivity].
-    eapply set_all_some_reach; [apply reach_empty|vm_compute; reflexivity].
+    apply (set_all_some_reach [(0, 5); (16, 6)] empty _ reach_empty). vm_compute. reflexivity.
   - eexists _, _. split; [vm_compute; reflexivity|]. split;
-      [eapply set_all_some_reach; [apply reach_empty|vm_compute; reflexivity]|].
+      [apply (set_all_some_reach [(0, 5); (256, 6)] empty _ reach_empty); vm_compute; reflexivity|].
     split; [vm_compute; reflexivity|]. split; [|vm_compute; reflexivity].
     vm_compute. do 16 right. left. reflexivity.
   - eexists _, _. split; [vm_compute; reflexivity|]. split;
-      [eapply set_all_some_reach; [apply reach_empty|vm_compute; reflexivity]|].
-    split; [vm_compute; reflexivity|]. split; [vm_compute; reflexivity|].
-    exists 0, SZ_NODE. vm_compute. tauto.
+      [apply (set_all_some_reach [(16, 1); (17, 2); (300, 3)] empty _ reach_empty); vm_compute; reflexivity|].
+    split; [vm_compute; reflexivity|].
+    exists 2, SZ_LEAF. split; [vm_compute; tauto|]. vm_compute. intros [H|[H|[]]]; discriminate H.
 Qed.
 
 Lemma fini_empty old dt : fini old dt empty = Some [].
